@@ -36,7 +36,21 @@ class VariantAdapter(envcorr.Adapter):
         return inst["n"]
 
     def sizes(self, tier):
-        return [1, 2, 3, 5, 8] if tier == "quick" else [1, 2, 3, 5, 8, 13, 20]
+        # small sizes dominate; a share of the cases is large (n = 30, 51)
+        return [1, 2, 3, 5, 8, 8, 13, 30, 51] if tier == "quick" else [1, 2, 3, 5, 8, 13, 20, 30, 51]
+
+    @staticmethod
+    def boxed(rng, pts, scale_ok=True):
+        """a share of the instances lives in a scaled and/or shifted box (still exact on the 2^-10 grid): the
+        distances are multiplied by k / unchanged, the coordinates leave the unit square"""
+        r = rng.random()
+        if r < 0.15 and scale_ok:
+            k = rng.choice([2, 4])  # dx^2 + dy^2 stays below 2^24: float32 norms remain exact
+            return [(x * k, y * k) for (x, y) in pts], f"x{k}"
+        if r < 0.30:
+            sx, sy = rng.choice([(1000 * geom.GRID, 1000 * geom.GRID), (-3 * geom.GRID, 5 * geom.GRID), (100 * geom.GRID, 0)])
+            return [(x + sx, y + sy) for (x, y) in pts], f"shift({sx // geom.GRID},{sy // geom.GRID})"
+        return pts, "unit"
 
     def c05_ok(self, f):
         return True
@@ -60,6 +74,9 @@ class VariantAdapter(envcorr.Adapter):
         return ""
 
     def reward_exception_cause(self, insts, actions, e):
+        return ""
+
+    def batch_checker_cause(self, ctx, rows, batch_accepts):
         return ""
 
     def boundary_events(self, inst, actions):
@@ -89,23 +106,29 @@ class CvrptwAdapter(VariantAdapter):
     One grid step is S·1024 ticks; 1.0 is 2^20 ticks."""
     name = "cvrptw"
 
-    def make_env(self, **kw):
+    def make_env(self, Q=1.0, **kw):
         from rl4co.envs.routing.cvrptw.env import CVRPTWEnv
 
-        return CVRPTWEnv(generator_params=dict(num_loc=5), check_solution=False)
+        return CVRPTWEnv(generator_params=dict(num_loc=5, vehicle_capacity=Q), check_solution=False)
+
+    def variants(self):
+        # the (normalised) vehicle capacity is an env-level option read by `_reset`
+        return [{}, {}, {"Q": 0.5}, {"Q": 2.0}]
 
     def kinds(self):
-        return ["random", "boundary", "boundary", "scaled", "integral"]
+        return ["random", "boundary", "boundary", "scaled", "integral", "integral-large"]
 
-    def gen_instance(self, rng, n, kind="random"):
+    def gen_instance(self, rng, n, kind="random", Q=1.0):
         C = rng.choice([4, 8, 16, 32])
         if rng.random() < 0.4:
             pool = [C // 2, C // 4, C // 4, C // 2, C, C - 1, 1, C // 2 + 1, C // 2 - 1]
             dem = [max(1, rng.choice(pool)) for _ in range(n)]
         else:
             dem = [rng.randint(1, min(9, C)) for _ in range(n)]
-        pts = geom.gen_points(rng, n + 1)
-        S = {"scaled": 1, "integral": 1024}.get(kind, 128)
+        S = {"scaled": 1, "integral": 1024, "integral-large": 4096}.get(kind, 128)
+        pts, box = geom.gen_points(rng, n + 1), "unit"
+        if kind not in ("scaled", "integral-large"):
+            pts, box = self.boxed(rng, pts)
         D = geom.dist_matrix(pts)
         span = max(1, max(D[0]))
         H = max(2, sum(D[0]))  # rough tour scale
@@ -127,7 +150,12 @@ class CvrptwAdapter(VariantAdapter):
             dur.append(dj); twS.append(s); twE.append(e)
         e0 = max([1] + [twE[j] + dur[j] + D[j][0] for j in range(1, n + 1)]) + rng.choice([0, 0, 0, 5, H])
         twE[0] = e0
-        return {"kind": kind, "n": n, "C": C, "demand": dem, "pts": pts, "S": S, "dur": dur, "twS": twS, "twE": twE}
+        # the depot's own window start / service duration are data too (never used by a correct env)
+        if rng.random() < 0.3 and e0 >= 12:
+            dur[0] = rng.choice([1, 8])
+            twS[0] = rng.choice([0, 1, 2])       # twS[0] + dur[0] <= e0: the checker's static assertion holds
+        return {"kind": kind, "n": n, "C": C, "Q": Q, "demand": dem, "pts": pts, "box": box, "S": S, "dur": dur,
+                "twS": twS, "twE": twE}
 
     def to_td(self, insts):
         B = len(insts)
@@ -140,19 +168,20 @@ class CvrptwAdapter(VariantAdapter):
 
         locs = torch.tensor([[co(i, p) for p in i["pts"][1:]] for i in insts], dtype=torch.float32)
         depot = torch.tensor([co(i, i["pts"][0]) for i in insts], dtype=torch.float32)
-        demand = torch.tensor([[d / i["C"] for d in i["demand"]] for i in insts], dtype=torch.float32)
+        demand = torch.tensor([[d * i.get("Q", 1.0) / i["C"] for d in i["demand"]] for i in insts], dtype=torch.float32)
         durations = torch.tensor([[tm(i, v) for v in i["dur"]] for i in insts], dtype=torch.float32)
         tw = torch.tensor([[[tm(i, a), tm(i, b)] for a, b in zip(i["twS"], i["twE"])] for i in insts], dtype=torch.float32)
         return TensorDict({"locs": locs, "depot": depot, "demand": demand, "durations": durations,
                            "time_windows": tw}, batch_size=[B])
 
     def line(self, op, inst, actions):
-        n, C, S = inst["n"], inst["C"], inst["S"]
+        n, C, S, Q = inst["n"], inst["C"], inst["S"], inst.get("Q", 1.0)
         g = S * 1024  # ticks per grid step
-        dem = [d * (rl.SCALE // C) for d in inst["demand"]]
+        cap = int(Q * rl.SCALE)  # Q is a power of two: exact
+        dem = [d * (cap // C) for d in inst["demand"]]
         D = [[d * g for d in row] for row in geom.dist_matrix(inst["pts"])]
-        e0 = inst.get("e0_row0", inst["twE"][0]) * g
-        return (f"cvrptw.{op} {n} {rl.SCALE} {rl.tol_ticks(1.0)} {rl.SCALE} {e0} | " + _join(dem) + " | "
+        e0 = inst.get("e0_ticks", inst["twE"][0] * g)  # depot deadline of batch row 0, in ticks
+        return (f"cvrptw.{op} {n} {cap} {rl.tol_ticks(Q)} {rl.SCALE} {e0} | " + _join(dem) + " | "
                 + _join(v * g for v in inst["twS"]) + " | " + _join(v * g for v in inst["twE"]) + " | "
                 + _join(v * g for v in inst["dur"]) + " | " + _join(_flat(D)) + " | " + _join(actions))
 
@@ -232,6 +261,17 @@ class CvrptwAdapter(VariantAdapter):
             return "int-clock"
         return ""
 
+    def batch_checker_cause(self, ctx, rows, batch_accepts):
+        # known defect: every row's static assertion is tested against the depot deadline of batch row 0.  It
+        # explains a batch verdict iff the modelled checker, given row 0's deadline for every row, reproduces it
+        e0 = rows[0][0]["twE"][0] * rows[0][0]["S"] * 1024
+        fs = [parse_fields(x) for x in vc.ask(ctx, [self.line("check", dict(i, e0_ticks=e0), a) for (i, _, a, _) in rows])]
+        model_batch = all(f.get("check") == "1" for f in fs)
+        own = all((f.get("checkown") == "1") == v for f, (_, _, _, v) in zip(fs, rows))
+        if model_batch == batch_accepts and own and len({i["twE"][0] * i["S"] for (i, _, _, _) in rows}) > 1:
+            return "row0-depot-deadline"
+        return ""
+
     def enumerate_solutions(self, inst):
         n = inst["n"]
         for perm in itertools.permutations(range(1, n + 1)):
@@ -258,15 +298,19 @@ class SdvrpAdapter(VariantAdapter):
     name = "sdvrp"
     c05_op = "episode"
 
-    def make_env(self, **kw):
+    def make_env(self, Q=1.0, **kw):
         from rl4co.envs.routing.sdvrp.env import SDVRPEnv
 
-        return SDVRPEnv(generator_params=dict(num_loc=5), check_solution=False)
+        return SDVRPEnv(generator_params=dict(num_loc=5, vehicle_capacity=Q), check_solution=False)
+
+    def variants(self):
+        # the (normalised) vehicle capacity is an env-level option read by `_reset`
+        return [{}, {}, {"Q": 0.5}, {"Q": 2.0}]
 
     def kinds(self):
         return ["random", "boundary", "big"]
 
-    def gen_instance(self, rng, n, kind="random"):
+    def gen_instance(self, rng, n, kind="random", Q=1.0):
         C = rng.choice([4, 8, 16])
         if kind == "boundary":
             pool = [C // 2, C // 4, C // 4, C // 2, C, C - 1, 1, C // 2 + 1, C // 2 - 1]
@@ -275,20 +319,25 @@ class SdvrpAdapter(VariantAdapter):
             dem = [rng.choice([C, C + 1, 2 * C, C + C // 2, C // 2, 1, 2 * C + 1]) for _ in range(n)]
         else:
             dem = [rng.randint(1, min(9, C)) for _ in range(n)]
-        pts = geom.gen_points(rng, n + 1)
-        return {"kind": kind, "n": n, "C": C, "demand": dem, "pts": pts}
+        pts, box = self.boxed(rng, geom.gen_points(rng, n + 1))
+        return {"kind": kind, "n": n, "C": C, "Q": Q, "demand": dem, "pts": pts, "box": box}
 
     def to_td(self, insts):
         B = len(insts)
         locs = torch.tensor([geom.to_unit(i["pts"][1:]) for i in insts], dtype=torch.float32)
         depot = torch.tensor([geom.to_unit(i["pts"][:1])[0] for i in insts], dtype=torch.float32)
-        demand = torch.tensor([[d / i["C"] for d in i["demand"]] for i in insts], dtype=torch.float32)
+        demand = torch.tensor([[d * i.get("Q", 1.0) / i["C"] for d in i["demand"]] for i in insts], dtype=torch.float32)
         return TensorDict({"locs": locs, "depot": depot, "demand": demand}, batch_size=[B])
 
+    def _unit_ticks(self, inst):
+        """ticks of one demand unit (1/C of the capacity Q; Q a power of two, so exact)"""
+        return int(inst.get("Q", 1.0) * rl.SCALE) // inst["C"]
+
     def _head(self, op, inst, actions):
-        n, C = inst["n"], inst["C"]
-        dem = [d * (rl.SCALE // C) for d in inst["demand"]]
-        return (f"sdvrp.{op} {n} {rl.SCALE} | " + _join(dem) + " | " + _join(_flat(geom.D_ticks(inst["pts"])))
+        n = inst["n"]
+        u = self._unit_ticks(inst)
+        dem = [d * u for d in inst["demand"]]
+        return (f"sdvrp.{op} {n} {u * inst['C']} | " + _join(dem) + " | " + _join(_flat(geom.D_ticks(inst["pts"])))
                 + " | " + _join(actions))
 
     def line(self, op, inst, actions):
@@ -296,7 +345,7 @@ class SdvrpAdapter(VariantAdapter):
 
     def check_line(self, inst, lab, sol):
         if getattr(sol, "qs", None) is not None:
-            return self._head("witness", inst, list(sol)) + " | " + _join(q * (rl.SCALE // inst["C"]) for q in sol.qs)
+            return self._head("witness", inst, list(sol)) + " | " + _join(q * self._unit_ticks(inst) for q in sol.qs)
         return self._head("check", inst, list(sol))
 
     def step_bound(self, inst):
@@ -483,60 +532,33 @@ class SdvrpAdapter(VariantAdapter):
 # =================================================================================================
 # SVRP
 # =================================================================================================
-class SvrpEnvs:
-    """`SVRPEnv._get_reward` reads the technician cost factors from the env object (`env.tech_costs`, set
-    from `generator_params`), so one real env per cost vector is constructed — exactly what a user does
-    through `generator_params=dict(tech_costs=…)`; the adapter selects it before every reset."""
-
-    def __init__(self):
-        self._envs = {}
-        self.cur = None
-
-    def select(self, costs):
-        key = tuple(costs)
-        if key not in self._envs:
-            from rl4co.envs.routing.svrp.env import SVRPEnv
-
-            self._envs[key] = SVRPEnv(generator_params=dict(num_loc=5, tech_costs=list(costs)), check_solution=False)
-        self.cur = self._envs[key]
-
-    def reset(self, td):
-        return self.cur.reset(td)
-
-    def step(self, td):
-        return self.cur.step(td)
-
-    def _get_reward(self, td, actions):
-        return self.cur._get_reward(td, actions)
-
-    def check_solution_validity(self, td, actions):
-        return self.cur.check_solution_validity(td, actions)
-
-
-COSTS = {1: [2], 2: [1, 3], 3: [1, 2, 3], 4: [2, 1, 3, 5], 5: [1, 1, 2, 3, 5]}
+# cost vectors (numerators, common denominator): other lengths and values than the default [1, 2, 3]
+SVRP_COSTS = [((1, 2, 3), 1), ((1, 2, 3), 1), ((1, 3), 1), ((3, 2, 1), 1), ((2, 1, 3, 5), 1), ((1, 1, 2, 3, 5), 1),
+              ((0, 4, 4), 1), ((100, 1, 50), 1), ((2, 8, 6), 4), ((7, 7), 1), ((1, 2, 3, 4, 5, 6), 1)]
 
 
 class SvrpAdapter(VariantAdapter):
-    """All rows of a batch share the number of technicians (it is a tensor dimension) and the cost vector
-    (an env attribute); both are therefore functions of `n`, which the generic routines keep constant
-    within a batch."""
+    """All rows of a batch share the number of technicians (a tensor dimension) and the cost vector (an env
+    attribute, `generator_params=dict(tech_costs=…)`); both are an environment-level *variant* chosen per batch
+    (`variants()` / `envcorr.pick_env`): cost vectors of 2–6 technicians, non-monotone, with zeros, large
+    values and non-integer (dyadic) values."""
     name = "svrp"
     pads = [0]  # see vrpvariants_corr: extra padding past the last technician makes the real env raise
 
-    def __init__(self):
-        self.envs = SvrpEnvs()
+    def make_env(self, costs=(1, 2, 3), cden=1, **kw):
+        from rl4co.envs.routing.svrp.env import SVRPEnv
 
-    def T_of(self, n):
-        return {1: 3, 2: 4, 3: 2, 4: 3, 5: 3, 8: 2, 13: 5, 20: 3}.get(n, 3)
+        tc = [c / cden for c in costs] if cden != 1 else list(costs)
+        return SVRPEnv(generator_params=dict(num_loc=5, tech_costs=tc), check_solution=False)
 
-    def make_env(self, **kw):
-        return self.envs
+    def variants(self):
+        return [{"costs": c, "cden": d} for (c, d) in SVRP_COSTS]
 
     def kinds(self):
         return ["random", "boundary", "boundary", "unsorted"]
 
-    def gen_instance(self, rng, n, kind="random", T=None):
-        T = T or self.T_of(n)
+    def gen_instance(self, rng, n, kind="random", costs=(1, 2, 3), cden=1):
+        T = len(costs)
         q = sorted(rng.randint(4, 40) for _ in range(T))  # technician levels in quarters, ascending
         if kind == "unsorted" and T > 2:
             head = q[:-1]
@@ -552,12 +574,19 @@ class SvrpAdapter(VariantAdapter):
                 sk.append(rng.randint(0, top))
             else:
                 sk.append(top)                        # only the last technician qualifies
-        pts = geom.gen_points(rng, n + 1)
-        return {"kind": kind, "n": n, "T": T, "techs": q, "skills": sk, "costs": COSTS[T], "pts": pts}
+        if rng.random() < 0.2:                        # larger magnitudes of levels / skills
+            q, sk = [v * 64 for v in q], [v * 64 for v in sk]
+        pts, box = self.boxed(rng, geom.gen_points(rng, n + 1))
+        return {"kind": kind, "n": n, "T": T, "techs": q, "skills": sk, "costs": list(costs), "cden": cden,
+                "pts": pts, "box": box}
+
+    def real_reward_ticks(self, env, td, actions):
+        r = env._get_reward(td, actions)
+        return [rl.ticks(v * self._cden) for v in r.flatten().tolist()]
 
     def to_td(self, insts):
         B = len(insts)
-        self.envs.select(insts[0]["costs"])
+        self._cden = insts[0].get("cden", 1)  # the model's rewards are in units of 1/cden
         locs = torch.tensor([geom.to_unit(i["pts"][1:]) for i in insts], dtype=torch.float32)
         depot = torch.tensor([geom.to_unit(i["pts"][:1])[0] for i in insts], dtype=torch.float32)
         techs = torch.tensor([[[v / 4] for v in i["techs"]] for i in insts], dtype=torch.float32)
@@ -770,6 +799,17 @@ THEOREMS = {
 }
 
 
+VARIANT_NOTE = {
+    "cvrptw": "env-level option vehicle_capacity ∈ {1.0, 0.5, 2.0} (model parameter `cap`), coordinates in scaled / shifted boxes, "
+              "times in eighths / integers / inside [0,1] / thousands, depot duration and window start ≠ 0, n up to 51; generator "
+              "options max_time / scale / max_loc / demand range only enter through generated data and are covered by a float32 "
+              "generator stream judged one-sidedly by the Lean Spec (slack 2^-12), not by the bit-exact correspondence",
+    "sdvrp": "env-level option vehicle_capacity ∈ {1.0, 0.5, 2.0} (model parameter `cap`), demands above the capacity, "
+             "coordinates in scaled / shifted boxes, n up to 51",
+    "svrp": "env-level option tech_costs: 11 cost vectors of 2–6 technicians (non-monotone, zeros, large, non-integer dyadic), "
+            "levels/skills at two magnitudes, scaled / shifted boxes, n up to 51; generator options min_skill / max_skill / "
+            "tech_costs / max_loc through a float32 generator stream whose mask trace is compared exactly (the mask only compares)",
+}
 SCOPE = {
     ("C01", "cvrptw"): "Spec requires every route (also the last, implicit one) to be back at the depot within the depot's window; "
                        "RetOK (guaranteed by the bundled generator) is a hypothesis of the theorem, instances of the harness satisfy it",
@@ -789,7 +829,173 @@ def _unit(prop, fam, run):
     mod, thms = THEOREMS.get((prop, fam), (None, []))
     extra = [SCOPE[(prop, fam)]] if (prop, fam) in SCOPE else []
     register(Unit(prop, fam, run, drivers=["drv_" + fam], lean_modules=[mod] if mod else [],
-                  theorems=thms, assumptions=[NOTE[fam]] + extra + ([] if thms else [NOTHM])))
+                  theorems=thms, assumptions=[NOTE[fam], VARIANT_NOTE[fam]] + extra + ([] if thms else [NOTHM])))
+
+
+# =================================================================================================
+# generator streams: the bundled generators with NON-DEFAULT options (float32 data, not dyadic by design)
+# =================================================================================================
+GK = 48  # generator-stream tick = 2^-48: every float32 value of magnitude >= 2^-24 is an integer number of ticks
+
+
+def _gt(x) -> int:
+    """float (exactly a dyadic rational) -> ticks of 2^-GK, rounded only for values below 2^-24"""
+    from fractions import Fraction
+
+    return int(round(Fraction(float(x)) * (1 << GK)))
+
+
+CVRPTW_GEN = [dict(), dict(scale=True), dict(max_time=240, max_loc=60.0), dict(max_time=1000, max_loc=300.0),
+              dict(scale=True, max_time=1000, max_loc=300.0), dict(vehicle_capacity=2.0), dict(vehicle_capacity=0.5),
+              dict(min_demand=3, max_demand=5), dict(capacity=12.0)]
+
+
+def cvrptw_generator_stream(ctx, what: str):
+    """Instances drawn from CVRPTWGenerator with non-default `max_time` / `scale` / `max_loc` /
+    `vehicle_capacity` / demand options, episodes through the real mask.  The float32 inputs (and the float32
+    distance matrix torch computes from them) are handed to the Lean Spec as exact rationals; because the env
+    accumulates in float32 the oracle is one-sided with a relative slack of 2^-12: the episode must be feasible
+    for deadlines and capacity relaxed by that slack (C01), finish within 2n+1 steps without dead ends on
+    instances satisfying the theorem's WF (C02), and report the Spec objective up to n·2^-18 relative (C03)."""
+    from rl4co.envs.routing.cvrptw.env import CVRPTWEnv
+
+    for g in range(ctx.budget(27, 180)):
+        var = CVRPTW_GEN[g % len(CVRPTW_GEN)]
+        n = ctx.rng.choice([5, 10, 20, 50])
+        B = ctx.rng.choice([1, 2, 4])
+        env = CVRPTWEnv(generator_params=dict(num_loc=n, **var), check_solution=False)
+        torch.manual_seed(ctx.rng.randrange(1 << 31))
+        td0 = env.generator([B])
+        Q = float(var.get("vehicle_capacity", 1.0))
+        tdr = env.reset(td0.clone())
+        locs = tdr["locs"]
+        Dm = (locs[:, :, None, :] - locs[:, None, :, :]).norm(p=2, dim=-1)
+        tw, du, dem = tdr["time_windows"].float(), tdr["durations"].float(), tdr["demand"]
+        # the theorem's well-formedness (C18 is about the generator meeting it; here it only selects the cases)
+        wf = bool(((Dm[:, 0, 1:] <= tw[:, 1:, 1]) & (tw[:, 1:, 1] + du[:, 1:] + Dm[:, 1:, 0] <= tw[:, 0:1, 1])).all()) \
+            and bool((dem <= Q).all())
+        ctx.count("cvrptw.generator." + (",".join(f"{k}={v}" for k, v in sorted(var.items())) or "default"))
+        if not wf:
+            ctx.count("cvrptw.generator.not-WF-skipped")
+            continue
+        try:
+            ep = rl.run_episode(env, td0, envcorr.uniform_chooser(ctx.rng), max_steps=20 * (n + 2) + 50)
+        except RuntimeError as e:
+            if what == "C02":
+                vc.viol(ctx, "cvrptw:no-termination:generator-stream", f"real env: {e}", {"generator_params": var, "n": n})
+            continue
+        if what == "C02":
+            for (r, t) in ep.empty_mask_rows:
+                vc.viol(ctx, "cvrptw:dead-end:generator-stream", "a row is offered no action while the batch is running",
+                        {"generator_params": var, "n": n, "row": r, "step": t, "actions": ep.actions[r]})
+            for r in range(B):
+                d = ep.done[r]
+                fd = d.index(1) if 1 in d else None
+                ctx.case(("cvrptw-gen", repr(var), n, tuple(ep.actions[r])))
+                if fd is None or fd > 2 * n + 1:
+                    vc.viol(ctx, "cvrptw:step-bound:generator-stream", f"row needed {fd} steps, bound {2 * n + 1}",
+                            {"generator_params": var, "n": n, "actions": ep.actions[r]})
+                if any(d[k] == 1 and d[k + 1] == 0 for k in range(len(d) - 1)):
+                    vc.viol(ctx, "cvrptw:done-unstable:generator-stream", "a finished row became unfinished",
+                            {"generator_params": var, "n": n, "actions": ep.actions[r]})
+            continue
+        if ep.empty_mask_rows:
+            continue
+        real = env._get_reward(ep.td, rl.actions_tensor(ep)).flatten().tolist() if what == "C03" else None
+        lines = []
+        for r in range(B):
+            M = float(tw[r, 0, 1])
+            eps = _gt(M) >> 12
+            cap = _gt(Q)
+            lines.append(
+                f"cvrptw.check {n} {cap + (cap >> 12)} 0 {1 << GK} {_gt(M) + eps} | " + _join(_gt(v) for v in dem[r].tolist())
+                + " | " + _join(_gt(v) for v in tw[r, :, 0].tolist()) + " | " + _join(_gt(v) + eps for v in tw[r, :, 1].tolist())
+                + " | " + _join(_gt(v) for v in du[r].tolist()) + " | " + _join(_gt(v) for v in Dm[r].flatten().tolist())
+                + " | " + _join(ep.actions[r]))
+        if what == "C03":
+            lines = [ln.replace("cvrptw.check", "cvrptw.episode", 1) for ln in lines]
+        fs = [parse_fields(x) for x in vc.ask(ctx, lines)]
+        for r in range(B):
+            ctx.case(("cvrptw-gen", repr(var), n, tuple(ep.actions[r])))
+            wit = {"generator_params": var, "n": n, "torch_seed_row": r, "actions": ep.actions[r],
+                   "time_windows": tw[r].tolist(), "durations": du[r].tolist(), "demand": dem[r].tolist(),
+                   "locs": locs[r].tolist()}
+            if what == "C01" and fs[r].get("feas") != "1":
+                vc.viol(ctx, "cvrptw:infeasible-episode:generator-stream",
+                        "mask-confined episode on a generated instance is infeasible by the Lean Spec even with "
+                        "deadlines and capacity relaxed by 2^-12", wit)
+            if what == "C03":
+                obj = int(fs[r]["obj"]) / (1 << GK)
+                if abs(-obj - real[r]) > max(1.0, obj) * (n + 2) * 2 ** -18:
+                    vc.viol(ctx, "cvrptw:reward-ne-objective:generator-stream",
+                            "reward differs from the Spec objective beyond float32 accumulation error",
+                            dict(wit, reward=real[r], spec_objective=obj))
+            ctx.sample({"env": "cvrptw", "stream": "generator", "generator_params": var, "n": n,
+                        "actions": ep.actions[r], "spec_feasible_relaxed": fs[r].get("feas"), "spec_obj": fs[r].get("obj")}, cap=5)
+
+
+SVRP_GEN = [dict(), dict(min_skill=0.5, max_skill=2.0), dict(tech_costs=[1, 5]), dict(min_skill=3.0, max_skill=3.0),
+            dict(tech_costs=[2, 1, 1, 7], max_loc=10.0), dict(min_skill=100.0, max_skill=1000.0, tech_costs=[1, 2])]
+
+
+def svrp_generator_stream(ctx, what: str):
+    """Instances drawn from SVRPGenerator with non-default `min_skill` / `max_skill` / `tech_costs` / `max_loc`.
+    The SVRP mask only COMPARES skills with technician levels, so the float32 data are handed to the Lean model
+    as exact rationals and the mask / done trace is compared bit for bit; the Spec judges the episode; the reward
+    is compared with the Spec objective up to float32 accumulation error."""
+    from rl4co.envs.routing.svrp.env import SVRPEnv
+
+    for g in range(ctx.budget(24, 180)):
+        var = SVRP_GEN[g % len(SVRP_GEN)]
+        n = ctx.rng.choice([3, 5, 10, 20, 50])
+        B = ctx.rng.choice([1, 2, 4])
+        env = SVRPEnv(generator_params=dict(num_loc=n, **var), check_solution=False)
+        torch.manual_seed(ctx.rng.randrange(1 << 31))
+        td0 = env.generator([B])
+        costs = [int(c) for c in env.tech_costs.tolist()]
+        T = len(costs)
+        ctx.count("svrp.generator." + (",".join(f"{k}={v}" for k, v in sorted(var.items())) or "default"))
+        try:
+            ep = rl.run_episode(env, td0, envcorr.uniform_chooser(ctx.rng), max_steps=20 * (n + 2) + 50)
+        except RuntimeError as e:
+            vc.viol(ctx, "svrp:env-raised:generator-stream", f"real env: {e}", {"generator_params": var, "n": n})
+            continue
+        tdr = env.reset(td0.clone())
+        locs = tdr["locs"]
+        Dm = (locs[:, :, None, :] - locs[:, None, :, :]).norm(p=2, dim=-1)
+        real = env._get_reward(ep.td, rl.actions_tensor(ep)).flatten().tolist()
+        lines = [f"svrp.episode {n} {T} | " + _join(_gt(v) for v in td0["techs"][r].flatten().tolist()) + " | "
+                 + _join(_gt(v) for v in td0["skills"][r].flatten().tolist()) + " | " + _join(costs) + " | "
+                 + _join(_gt(v) for v in Dm[r].flatten().tolist()) + " | " + _join(ep.actions[r]) for r in range(B)]
+        replies = vc.ask(ctx, lines)
+        for r in range(B):
+            inst = {"kind": "generator", "n": n, "generator_params": var, "techs": td0["techs"][r].flatten().tolist(),
+                    "skills": td0["skills"][r].flatten().tolist(), "costs": costs}
+            f = envcorr.compare_trace(ctx, SV, inst, ep.actions[r], ep.masks[r], ep.done[r], replies[r],
+                                      f"{what} generator stream", trace=what in ("C01", "C02"))
+            ctx.case(("svrp-gen", repr(var), n, tuple(ep.actions[r])))
+            d = ep.done[r]
+            fd = d.index(1) if 1 in d else None
+            if what == "C01" and f.get("feas") != "1" and not ep.empty_mask_rows:
+                vc.viol(ctx, "svrp:infeasible-episode:generator-stream",
+                        "mask-confined episode on a generated instance is infeasible by the Lean Spec",
+                        {"inst": inst, "actions": ep.actions[r]})
+            if what == "C02":
+                for (rr, t) in ep.empty_mask_rows:
+                    if rr == r:
+                        vc.viol(ctx, "svrp:dead-end:generator-stream", "a row is offered no action",
+                                {"inst": inst, "actions": ep.actions[r], "step": t})
+                if fd is None or fd > n + max(T - 1, 1):
+                    vc.viol(ctx, "svrp:step-bound:generator-stream", f"row needed {fd} steps, bound {n + max(T - 1, 1)}",
+                            {"inst": inst, "actions": ep.actions[r]})
+            if what == "C03" and "obj" in f:
+                obj = int(f["obj"]) / (1 << GK)
+                if abs(-obj - real[r]) > max(1.0, obj) * (n + 2) * 2 ** -18:
+                    vc.viol(ctx, "svrp:reward-ne-objective:generator-stream",
+                            "reward differs from the Spec objective beyond float32 accumulation error",
+                            {"inst": inst, "actions": ep.actions[r], "reward": real[r], "spec_objective": obj})
+            ctx.sample({"env": "svrp", "stream": "generator", "inst": inst, "actions": ep.actions[r],
+                        "spec_feasible": f.get("feas"), "reward": real[r]}, cap=5)
 
 
 # ---- family-specific extra probes ----------------------------------------------------------------
@@ -798,10 +1004,11 @@ def svrp_single_technician_probe(ctx):
     to the depot) makes `get_action_mask` index `techs[1]`."""
     ad = SV
     for n in (1, 2, 3):
-        inst = ad.gen_instance(ctx.rng, n, "random", T=1)
-        env = ad.make_env()
+        inst = ad.gen_instance(ctx.rng, n, "random", costs=(2,))
+        env = ad.env_for({"costs": (2,)})
         td0 = ad.to_td([inst])
         ctx.count("svrp.single-technician-episodes")
+        ctx.sample({"env": "svrp", "probe": "single technician", "inst": inst}, cap=6)
         try:
             ep = rl.run_episode(env, td0, envcorr.uniform_chooser(ctx.rng), max_steps=50)
             rep = parse_fields(ctx.driver.ask(ad.line("episode", inst, ep.actions[0])))
@@ -825,11 +1032,11 @@ def cvrptw_checker_row0_probe(ctx):
     reads the depot deadline of BATCH ROW 0 for every row.  Two instances with different depot deadlines,
     each with its own mask-generated (hence feasible) solution, checked together in both orders."""
     ad = TW
-    env = ad.make_env()
     for _ in range(ctx.budget(4, 40)):
+        env, var = envcorr.pick_env(ctx, ad)
         n = ctx.rng.choice([2, 3, 5])
-        A = ad.gen_instance(ctx.rng, n, "random")
-        B = dict(ad.gen_instance(ctx.rng, n, "random"))
+        A = ad.gen_instance(ctx.rng, n, "random", **var)
+        B = dict(ad.gen_instance(ctx.rng, n, "random", **var))
         B["twE"], B["twS"] = list(B["twE"]), list(B["twS"])
         DB = geom.dist_matrix(B["pts"])
         eA = A["twE"][0]
@@ -858,12 +1065,14 @@ def cvrptw_checker_row0_probe(ctx):
                 real = True
             except AssertionError:
                 real = False
-            e0 = insts[0]["twE"][0]
+            e0 = insts[0]["twE"][0] * insts[0]["S"] * 1024
             fs = [parse_fields(x) for x in ctx.driver.ask_many(
-                [ad.line("check", dict(i, e0_row0=e0), a) for i, a in zip(insts, acts)])]
+                [ad.line("check", dict(i, e0_ticks=e0), a) for i, a in zip(insts, acts)])]
             model = all(f.get("check") == "1" for f in fs)
             ctx.case(("cvrptw-row0", repr(insts), tuple(map(tuple, acts))))
             ctx.count(f"cvrptw.row0-probe.{'accepted' if real else 'rejected'}")
+            ctx.sample({"env": "cvrptw", "probe": "batched checker, two depot deadlines", "insts": insts, "actions": acts,
+                        "real_batch_accepts": real, "model_rows": [f.get("check") for f in fs]}, cap=6)
             if model != real:
                 ctx.disagreement("cvrptw: batched checker model (row-0 depot deadline) differs from the real checker",
                                  {"insts": insts, "actions": acts, "real": real, "model": [f.get("check") for f in fs]})
@@ -887,10 +1096,21 @@ def svrp_termination(ctx):
     svrp_single_technician_probe(ctx)
 
 
+GEN_STREAM = {"cvrptw": cvrptw_generator_stream, "svrp": svrp_generator_stream}
+
+
+def _with_stream(fam, prop, base):
+    def run(ctx):
+        base(ctx)
+        if fam in GEN_STREAM:
+            GEN_STREAM[fam](ctx, prop)
+    return run
+
+
 for _fam, _ad in (("cvrptw", TW), ("sdvrp", SD), ("svrp", SV)):
-    _unit("C01", _fam, lambda ctx, ad=_ad: vc.check_feasibility(ctx, ad))
-    _unit("C02", _fam, (svrp_termination if _fam == "svrp" else (lambda ctx, ad=_ad: vc.check_termination(ctx, ad))))
-    _unit("C03", _fam, lambda ctx, ad=_ad: vc.check_reward(ctx, ad))
+    _unit("C01", _fam, _with_stream(_fam, "C01", lambda ctx, ad=_ad: vc.check_feasibility(ctx, ad)))
+    _unit("C02", _fam, _with_stream(_fam, "C02", svrp_termination if _fam == "svrp" else (lambda ctx, ad=_ad: vc.check_termination(ctx, ad))))
+    _unit("C03", _fam, _with_stream(_fam, "C03", lambda ctx, ad=_ad: vc.check_reward(ctx, ad)))
     _unit("C04", _fam, lambda ctx, ad=_ad: vc.check_batch_independence(ctx, ad))
     _unit("C05", _fam, lambda ctx, ad=_ad: vc.check_completeness(ctx, ad))
     _unit("C06", _fam, (cvrptw_checker if _fam == "cvrptw" else (lambda ctx, ad=_ad: vc.check_checker(ctx, ad))))
